@@ -24,6 +24,8 @@
        Spectrum       ex.get_spectrum(u, power = True)                       bin b collects 1/2 |c[p]|^2 of the modes with (2b-1)^2 <= 4 |p|^2 < (2b+1)^2, b <= N/2
        Metric         MSE, fourier_MSE (with a band), H1_MSE                 Sum |c[p]|^2 (times L^D), Sum_{low <= max|p_d| <= high}, Sum (1 + |p|^2) |c[p]|^2
        Coefs          ex.spectral.get_fourier_coefficients(u, round = None)  half-spectrum over the coef_extraction scaling
+       Reject(m, how) a stepper called (eagerly / under jit / vmap / inside rollout / repeat / as RepeatedStepper / ForcedStepper) with a malformed state
+                                                                             raises ValueError
    The variable `last` names the action taken; TLC's -simulate writes behaviours that are replayed call by call into the library with the
    whole state compared after every action.  Invariants: the state is always a real field of the current grid; Apply / RK results are
    confined to the retained band; Resample preserves the mean; Project yields a divergence-free field. *)
@@ -186,6 +188,11 @@ DtA == <<1, 2>>
 Forced == \E v \in ShiftVecs, p \in {NthMode(D, N, i) : i \in 1..2}, tr \in {"cos", "sin"} :
               Step(MapCh(LAMBDA c : AdvectF(FAdd(c, FScale(CReal(DtA), BasisOn(D, N, p, tr))), v)), [op |-> "forced", v |-> v, p |-> p, trig |-> tr], 0)
 Observe(lab) == Step(st, lab, 0)
+\* a malformed call: the stepper is handed a state whose shape is not <<C, N, ..., N>>; it raises ValueError (whether called eagerly, compiled, mapped or
+\* from inside a scan) and the session's state is what it was.  MC_Validate.tla decides which shapes are malformed; here the mutations are named.
+Mutations == {"extra_channel", "no_channel_axis", "axis_plus_one", "all_axes_plus_one", "batch_axis", "missing_spatial_axis"}
+Reject == \E m \in Mutations, how \in {"eager", "jit", "vmap", "rollout", "repeat", "repeated", "forced"}, target \in {"advection", "burgers"} :
+              Observe([op |-> "reject", mut |-> m, how |-> how, target |-> target, obs |-> "ValueError"])
 Interp   == \E q \in QueryPts : (NyqFree \/ N % 4 = 0) /\ Observe([op |-> "interp", q |-> q, obs |-> [c \in 1..Len(st) |-> InterpAt(st[c], q)]])
 Spectrum == Small(st) /\ Observe([op |-> "spectrum", obs |-> [c \in 1..Len(st) |-> SpecOf(st[c])]])
 Metric   == \E lo \in 0..2, hi \in {1, (N \div 2) - 1, (N \div 2) + 1} : lo <= hi /\ Small(st) /\
@@ -193,7 +200,7 @@ Metric   == \E lo \in 0..2, hi \in {1, (N \div 2) - 1, (N \div 2) + 1} : lo <= h
 Coefs    == Observe([op |-> "coefs", obs |-> [c \in 1..Len(st) |-> CoefOf(st[c])]])
 \* Every step is taken in two halves: first a family of operations is chosen (all enabled families equally likely in TLC's simulation mode,
 \* and only the chosen family's successors have to be computed), then one member of the family is executed.
-Families == {"advect", "advectn", "forced", "interp", "spectrum", "metric", "coefs", "derive", "filter", "apply", "rk", "resample", "leray", "incomp", "poisson", "oddball", "addmode"}
+Families == {"advect", "advectn", "forced", "reject", "interp", "spectrum", "metric", "coefs", "derive", "filter", "apply", "rk", "resample", "leray", "incomp", "poisson", "oddball", "addmode"}
 FamGuard(f) == CASE f \in {"leray", "incomp"} -> IsVec /\ NyqFree
                  [] f = "derive"   -> ~IsVec
                  [] f = "apply"    -> nl + 1 <= MaxNl
@@ -202,7 +209,7 @@ FamGuard(f) == CASE f \in {"leray", "incomp"} -> IsVec /\ NyqFree
                  [] f = "interp"   -> NyqFree \/ N % 4 = 0
                  [] f \in {"spectrum", "metric"} -> Small(st)
                  [] OTHER -> TRUE
-FamAct(f) == CASE f = "forced" -> Forced [] f = "advect" -> Advect [] f = "advectn" -> AdvectN [] f = "interp" -> Interp [] f = "spectrum" -> Spectrum [] f = "metric" -> Metric
+FamAct(f) == CASE f = "reject" -> Reject [] f = "forced" -> Forced [] f = "advect" -> Advect [] f = "advectn" -> AdvectN [] f = "interp" -> Interp [] f = "spectrum" -> Spectrum [] f = "metric" -> Metric
                [] f = "coefs" -> Coefs [] f = "derive" -> Derive [] f = "filter" -> Filter [] f = "apply" -> Apply [] f = "rk" -> RK
                [] f = "resample" -> Resample [] f = "leray" -> Project [] f = "incomp" -> Incomp [] f = "poisson" -> Poisson
                [] f = "oddball" -> OddballA [] f = "addmode" -> AddMode
